@@ -9,16 +9,11 @@ TRUSTED_BASE = [
 
 PROPS = {}
 
-PROPS['C18'] = dict(
-    title='Staking transactions cannot move bonded stake more than 5% per 12-hour period',
-    drivers=['TestC18Ante', 'TestC18Track'],
-    coq_modules=['Model.Ante'], case_type='c18_case', check_fn='c18_check', classes_fn='c18_classes',
-    rule='ante: generated transactions of 1-6 staking/other messages whose combined increase and decrease are placed at the +-5% boundary (exact, +-1, +2) of a generated recorded amount, run through the real TrackStakeChangesDecorator; non-trivial = tracker present and >= 2 staking messages, distinct by (A, current, message list). track: real Keeper.TrackStakeChange at block times around the expiration (+-2 ns and random); every case non-trivial, distinct by inputs',
-    technique='Coq theorems over the decorator/tracker model (induction over the message list and over histories) + differential execution of the real decorator and keeper against the model inside Coq (vm_compute)',
-    level_text='Machine-checked theorems: an admitted transaction keeps bonded + combined additions <= A + A/20 and bonded - combined removals >= A - A/20 for all message lists; tracker refreshed only at/after expiry, lifted over all histories. The model is tied to the code by running the real AnteHandle / TrackStakeChange on generated transactions and comparing inside Coq.',
-    level_note='Trusted: Coq kernel; the correspondence harness (generated transactions reach the decorator directly, not through the full ante chain); math.Int modelled as Z; amounts of later-rejected non-positive messages are modelled with the sign logic of the code. Position of the decorator in app/ante.go is checked by the driver building the real chain only in C19.',
-    assumptions=['TotalBondedTokens and the tracker do not change while one transaction is in the ante handler',
-                 'block time is the only clock read by TrackStakeChange'],
-    design_ref='5/C18',
-)
+import glob, os, importlib.util
+for _p in sorted(glob.glob(os.path.join(os.path.dirname(os.path.abspath(__file__)), 'props', 'C*.py'))):
+    _spec = importlib.util.spec_from_file_location('prop_' + os.path.basename(_p)[:-3], _p)
+    _m = importlib.util.module_from_spec(_spec)
+    _spec.loader.exec_module(_m)
+    PROPS[os.path.basename(_p)[:-3]] = _m.PROP
+
 NOT_APPLICABLE = {}
